@@ -98,7 +98,7 @@ func verifMgrCheck(m *manager, want int, label string) {
 // configured number of pollers run, the surplus ones are closed, and every Pick returns a
 // running member of the pool; round-robin visits every member.
 //
-//verif:bounds loop counts a,b,c in [1,4]; balancing mode switched or not; go poll.Wait() run at once
+//verif:bounds loop counts a,b,c in [1,4]; balancing mode switched to random or not, and back to round-robin or not; go poll.Wait() run at once
 //verif:param 1 4
 //verif:loop 20
 //verif:replay interp
@@ -112,8 +112,10 @@ func verifHarness_C18_reconfig(a int) {
 	verifMgrCheck(m, a, "C18/phase1")
 	b := verifPick("b", 1, 4)
 	m.SetNumLoops(b)
+	wantRR := true
 	if verifNondetBool("switch.lb") {
 		m.SetLoadBalance(Random)
+		wantRR = false
 	}
 	seen := make([]bool, 12)
 	for i := 0; i < b; i++ {
@@ -124,17 +126,56 @@ func verifHarness_C18_reconfig(a int) {
 		seen[q.(*verifPoll).id] = true
 	}
 	verifMgrCheck(m, b, "C18/phase2")
-	if m.balance.LoadBalance() == RoundRobin {
+	if wantRR {
 		for i := 0; i < len(m.polls); i++ {
 			verifAssert(seen[m.polls[i].(*verifPoll).id], "C18/phase2/round-robin-skipped-a-poller")
 		}
 	}
 	c := verifPick("c", 1, 4)
 	m.SetNumLoops(c)
-	r := m.Pick()
+	if !wantRR && verifNondetBool("switch.back") {
+		m.SetLoadBalance(RoundRobin)
+		wantRR = true
+	}
+	seen3 := make([]bool, 12)
+	for i := 0; i < c; i++ {
+		r := m.Pick()
+		for verifRunPending() {
+		}
+		verifAssert(r != nil && !r.(*verifPoll).closed && r.(*verifPoll).running, "C18/phase3/pick-returned-dead-poller")
+		seen3[r.(*verifPoll).id] = true
+	}
+	verifMgrCheck(m, c, "C18/phase3")
+	if wantRR {
+		for i := 0; i < len(m.polls); i++ {
+			verifAssert(seen3[m.polls[i].(*verifPoll).id], "C18/phase3/round-robin-skipped-a-poller")
+		}
+	}
+	verifReach("end")
+}
+
+// A setting that no Pick ever sees: a loops, Pick, SetNumLoops(b0), SetNumLoops(b), Pick: the
+// pool has b running loops (in particular when b equals the current size a and b0 does not).
+//
+//verif:bounds loop counts a,b0,b in [1,4]; one Pick per phase
+//verif:param 1 4
+//verif:loop 20
+//verif:replay interp
+func verifHarness_C18_settwice(a int) {
+	verifMgrN = 0
+	m := newManager(a)
+	p := m.Pick()
 	for verifRunPending() {
 	}
-	verifAssert(r != nil && !r.(*verifPoll).closed, "C18/phase3/pick-returned-closed-poller")
-	verifMgrCheck(m, c, "C18/phase3")
+	verifAssert(p != nil && !p.(*verifPoll).closed, "C18/phase1/pick-returned-closed-poller")
+	verifMgrCheck(m, a, "C18/phase1")
+	m.SetNumLoops(verifPick("b0", 1, 4))
+	b := verifPick("b", 1, 4)
+	m.SetNumLoops(b)
+	q := m.Pick()
+	for verifRunPending() {
+	}
+	verifAssert(q != nil && !q.(*verifPoll).closed && q.(*verifPoll).running, "C18/phase2/pick-returned-dead-poller")
+	verifMgrCheck(m, b, "C18/phase2")
 	verifReach("end")
 }
